@@ -33,8 +33,8 @@ ASSUMPTIONS = [
     "builds are atomic per-target steps",
 ]
 
-FAMILIES_QUICK = [("checks", 30, {}), ("checks", 12, {"minimal": True})]
-FAMILIES_THOROUGH = [("checks", 450, {}), ("checks", 180, {"minimal": True})]
+FAMILIES_QUICK = [("checks", 28, {}), ("checks", 11, {"minimal": True}), ("depchecks", 3, {}), ("depchecks", 3, {"minimal": True})]
+FAMILIES_THOROUGH = [("checks", 420, {}), ("checks", 165, {"minimal": True}), ("depchecks", 45, {}), ("depchecks", 45, {"minimal": True})]
 
 
 def run(ctx):
